@@ -75,6 +75,9 @@ pub fn scenarios(thorough: bool) -> Vec<Scenario> {
 
 pub fn run(run: &Run) {
     long_histories(run, run.thorough());
+    // several withdrawals of one block settled against the same pool: several new coins at one address in one settlement
+    crate::props::c15::user_pool_emptied_by_several_withdrawals(run, run.thorough());
+    crate::props::c16::custom_pool_withdrawals(run, run.thorough());
     for sc in scenarios(run.thorough()) {
         sample_alphabet(run, &sc);
         let st = run_scenario(run, &sc, 2_000_000);
